@@ -23,7 +23,7 @@ META = {
                 tech='sibling cross-check over resolved callees, term tables, symbolic writer/reader composition over polynomial normal forms'),
     'C05': dict(text=GEN % 'documented axis orders as rotation words, order-name tables agree, unit/flip/order threading, singular-branch agreement, term-by-term composition of tr2rpy/tr2eul with the rpy2r/eul2r words, double-cover parity of the quaternion accessors (R12, R10, R8, R16, R19)', sec='4 C05',
                 tech='rotation-word abstract evaluation, writer/reader composition over polynomial normal forms (no evaluation, no solver), option-threading dataflow, parity analysis'),
-    'C06': dict(text=GEN % 'lift-multiply-project and sandwich routes, operand integrity in the array branches, pose-left/point-right operand roles of every @, the unit-dual-quaternion route composed in the non-commutative quaternion algebra equals r p r~ + t over the pair (r, t r / 2) the constructor is shown to store and SE3() to read back, no hidden state in the classes involved (R16, R22, R9, R2, R1)', sec='4 C06',
+    'C06': dict(text=GEN % 'lift-multiply-project and sandwich routes, operand integrity in the array branches, pose-left/point-right operand roles of every @, the unit-dual-quaternion route composed in the non-commutative quaternion algebra equals r p r~ + t over the pair (r, t r / 2) the constructor is shown to store and SE3() to read back, no hidden state in the classes involved (R16, R22, R9, R2, R1); the sign-normalised vector part q.vec3 is never paired with the stored scalar part of the same quaternion (R16s)', sec='4 C06',
                 tech='routing patterns over resolved calls, reaching-definition check of operands'),
     'C07': dict(text=GEN % 'predicate atoms (R4), validation dominates every store into data (R5), constructors define state on every exit (R3), dual-mode transl/transl2 calls reached only with a vector argument (R20), caller data reaches no construction that skips the check (R15c transporters), a constructor argument that may be left out is used as a value only where it is known to be given (R10m), no silent None (R2)', sec='4 C07',
                 tech='pattern-matched predicate atoms, must-pass-through dataflow on the CFG, typestate of constructors'),
